@@ -68,7 +68,7 @@ for d in sorted(glob.glob(os.path.join(V, 'seeded', '*', 'meta.json'))):
         miss += 1
     rows.append('| %s | %s | %s | %s |' % (name, prop, m['needs_to_manifest'].replace('|', '\\|')[:260], '<br>'.join(outcomes) if outcomes else 'not run'))
 first_miss = sum(1 for k, v in hist.items() if 'MISSED' in v[:-1] or 'BROKEN' in v[:-1])
-matrix = '%d seeded changes detected by the check of their property, %d not detected (listed below as MISSED), %d not run. %d of the detected ones were missed (or hit a harness limit) on their first run and are detected since the check was strengthened - marked "first run" below.\n\n' % (det, miss, len(rows) - 2 - det - miss, first_miss) + '\n'.join(rows)
+matrix = '%d seeded changes detected (by the check of their own property unless the row says otherwise: a row with "<own id> quick: MISSED" followed by another check is caught by that other check only), %d not detected (listed below as MISSED), %d not run. %d of the detected ones were missed (or hit a harness limit) on their first run and are detected since the check was strengthened - marked "first run" below.\n\n' % (det, miss, len(rows) - 2 - det - miss, first_miss) + '\n'.join(rows)
 
 p = os.path.join(V, 'DESIGN.md')
 t = open(p).read()
